@@ -161,14 +161,14 @@ func isSortedKeys(rs *Resid, e ast.Expr) bool {
 }
 
 func runR_C03(c *Ctx) {
-	compareCoreRules(c)
+	compareCoreRules(c, true)
 	sortLessRules(c)
 	c.Rep.floor("R8", 50)
 }
 
 // compareCoreRules: the compare plugin's own residual rules (also part of C04 and C18, whose map handling sorts keys with
 // the derived compare function).
-func compareCoreRules(c *Ctx) {
+func compareCoreRules(c *Ctx, leafSemantics bool) {
 	sweepHealth(c, "compare")
 	rR1(c, "compare")
 	bodies := map[string]map[int]string{}
@@ -192,6 +192,10 @@ func compareCoreRules(c *Ctx) {
 		ok = reportIssues(c, rs, "R-nilness", "", s.nilnessIssues()) && ok
 		ok = reportIssues(c, rs, "R-conv", "", s.conversionIssues()) && ok
 		ok = reportIssues(c, rs, "R16", "", s.mapOrderIssues()) && ok
+		if leafSemantics {
+			// C03: values that differ in the nil-ness of a slice are ordered (nil first); bytes.Compare treats nil and empty alike
+			ok = reportIssues(c, rs, "R-leaf", "", nilBlindLibCalls(s)) && ok
+		}
 		if rs.Run.RecCut {
 			// a residual with a recursion marker is structurally checked only
 		}
